@@ -52,7 +52,7 @@ def pdb_lines(n, two_chains=True):
     out = []
     for i in range(n):
         ch = 'X' if (i < (n + 1) // 2 or not two_chains) else 'Y'
-        out.append('ATOM  %5d  CA  ALA %1s%4d    %8.3f%8.3f%8.3f%6.2f%6.2f           C  ' % (i, ch, i + 1, 1.5 * i, 0.25 * i, -0.5 * i, 1.0, 0.0))
+        out.append('ATOM  %5d  CA  ALA %1s%4d    %8.3f%8.3f%8.3f%6.2f%6.2f           C  ' % (i, ch, i % 9999 + 1, 1.5 * (i % 1000), 0.25 * (i % 4000), -0.5 * (i % 2000), 1.0, 0.0))
     return out
 
 
@@ -113,7 +113,7 @@ def read_back(path):
     detail = ''
     # every standard cell of every row must be what was inserted (a "part" of a row would show here)
     for i, r in enumerate(rows):
-        if r[cols.index('name')] != 'CA' or r[cols.index('resName')] != 'ALA' or abs(r[cols.index('x')] - 1.5 * r[si]) > 1e-9:
+        if r[cols.index('name')] != 'CA' or r[cols.index('resName')] != 'ALA' or abs(r[cols.index('x')] - 1.5 * (r[si] % 1000)) > 1e-9:
             detail = 'row %d damaged: %r' % (i, r)
             return 'corrupt', detail
     summary = {'n': n, 'ids_contiguous': serials == list(range(n)) or serials == [999], 'tags': tags if n else [], 'cols': [extra] if n else []}
@@ -148,7 +148,12 @@ class _Kill:
     def point(self, label):
         """called BEFORE a statement / commit / close / os.remove / connect"""
         self.labels.append(label)
-        if self.k is not None and self.count == self.k:
+        hit = False
+        if isinstance(self.k, int):
+            hit = self.count == self.k
+        elif isinstance(self.k, (list, tuple)):          # [label, occurrence]: the occurrence-th point with that label
+            hit = label == self.k[0] and self.labels.count(label) == self.k[1]
+        if hit:
             self.flush(label)
             os._exit(77)
         self.count += 1
@@ -159,7 +164,9 @@ class _Kill:
 
 
 _K = None
+_PROBE = None
 _CUR = {'op': None}
+ALLOWED_VERBS = {'CREATE', 'INSERT', 'UPDATE', 'ALTER', 'SELECT'}
 
 
 def _verb(sql):
@@ -257,6 +264,11 @@ def run_scenario(c, name):
     from pdb2sql import pdb2sql
     lines = pdb_lines(c['n'])
     db = pdb2sql(lines, sqlfile=sqlfile_arg(c, name), fix_chainID=bool(c.get('fix_chain')))
+    if _PROBE is not None:
+        # the harness (not the library) asks the object's own connection how it is configured; a query, no change
+        _PROBE['isolation_level'] = db.conn.isolation_level
+        _PROBE['journal_mode'] = sqlite3.Connection.execute(db.conn, 'PRAGMA journal_mode').fetchone()[0]
+        _PROBE['synchronous'] = sqlite3.Connection.execute(db.conn, 'PRAGMA synchronous').fetchone()[0]
     for m in c['steps']:
         dt = m[2] if len(m) > 2 else None
         if m[0] == 'update_column':
@@ -376,13 +388,23 @@ def impl(ctx, c):
     given = path if c.get('name_kind') == 'abs' else name          # what the caller passes
     out = {}
     if c['kind'] == 'normal':
+        global _K, _PROBE
         cwd0 = os.getcwd()
         os.chdir(wd)
+        orig_connect = sqlite3.connect
         try:
+            _K = _Kill(None, os.path.join(ctx.tmpdir(), 'unused_progress.json'))      # record-only: never kills
+            _PROBE = {}
+            sqlite3.connect = lambda *a, **k: orig_connect(*a, factory=KConn, **k)
             with warnings.catch_warnings():
                 warnings.simplefilter('ignore')
                 val, events = T.traced(lambda: run_scenario(c, given))
+            out['statements'] = sorted({l.split()[1] for l in _K.labels if l.startswith('execute')})
+            out['conn'] = dict(_PROBE)
         finally:
+            sqlite3.connect = orig_connect
+            _K = None
+            _PROBE = None
             os.chdir(cwd0)
         out['outcome'] = 'ok' if val[0] == 'ok' else exc_tag(val[1])
         if val[0] != 'ok':
@@ -434,7 +456,18 @@ def impl(ctx, c):
 
 
 def driver_line(c):
-    return {'op': 'store_scenario', 'ops': c.get('ops_sent', lean_ops(c)), 'k': -1, 'r0': c['r0']}
+    ops = c.get('ops_sent', lean_ops(c))
+    if c.get('model_n'):
+        # the model is uniform in the number of rows (and quadratic to execute): a big table is sent with model_n rows
+        ops = [[o[0], c['model_n']] if o[0] == 'insert' and o[1] == c['n'] else o for o in ops]
+    return {'op': 'store_scenario', 'ops': ops, 'k': -1, 'r0': c['r0']}
+
+
+def _rescale(c, rd):
+    """the model's / spec's answer for model_n rows, read as an answer for n rows"""
+    if c.get('model_n') and isinstance(rd, dict) and rd.get('n') == c['model_n']:
+        return dict(rd, n=c['n'])
+    return rd
 
 
 def _same_read(a, b):
@@ -446,17 +479,26 @@ def agree_model(c, out, model):
         return f'scenario raised {out["outcome"]}: {out.get("error")}'
     if out.get('removed_old') and out['read'] == 'nofile':
         return True                                # killed between os.remove(old) and connect: see ASSUMPTIONS
+    model = dict(model, read=_rescale(c, model['read']))
     if not _same_read(out['read'], model['read']):
         return f'stock reader finds {out["read"]} {out.get("read_detail", "")}; model {model["read"]} (operations completed: {c.get("ops_sent")})'
     if c['kind'] == 'normal':
         if out['trace'] != model['trace']:
             return f'effect trace {out["trace"]} model {model["trace"]}'
+        # statement obligation: the store model knows DDL (CREATE, ALTER), DML (INSERT, UPDATE) and reads -- nothing else
+        extra = [v for v in out.get('statements', []) if v not in ALLOWED_VERBS]
+        if extra:
+            return f'statements outside the store model executed on the file-backed connection: {extra}'
+        cn = out.get('conn', {})
+        if cn and (cn.get('journal_mode') != 'delete' or cn.get('isolation_level') != ''):
+            return f'the object\'s connection is not the one the store model assumes (rollback journal on disk, implicit deferred transactions): {cn}'
     return True
 
 
 def agree_spec(c, out, spec):
     """the property: keep -> exactly the table held; remove -> exactly that file gone; a kill -> the file opens cleanly
     and holds no atoms or the complete last-committed table; names are data"""
+    spec = dict(spec, seen=_rescale(c, spec['seen']), held=_rescale(c, spec['held']))
     if out['read'] in ('corrupt', 'notadb') and not (c['r0'] == 'garbage' and not c.get('ops_sent')):
         return f'file does not open cleanly: {out["read"]} {out.get("read_detail", "")}'
     if out['created'] or out['deleted'] or out['modified']:
@@ -594,6 +636,13 @@ def cases(ctx):
         shutil.rmtree(wd, ignore_errors=True)
         for k in range(prog['points']):
             out.append(dict(c0, kill=k))
+    # (2b) a table larger than SQLite's page cache: create, commit, modify every row twice, kill before the commit --
+    # uncommitted pages have been spilled into the database file by then; the reader must still find the committed table
+    big = {'n': ctx.scale(60000, 150000), 'steps': [['commit'], ['update_column', 3, 'f64'], ['update_column', 5, 'list_float']], 'close': 'keep',
+           'fix_chain': False, 'r0': 'nofile', 'model_n': 7}
+    out.append(dict(big, op='store_scenario', kind='kill', name='big.db', kill=['commit', 2]))
+    if ctx.thorough:
+        out.append(dict(big, op='store_scenario', kind='kill', name='big.db', kill=['close', 1], steps=[['commit'], ['update', 4, 'f32'], ['add_column', 'w']], close='remove'))
     # (3) file names
     names = all_names()
     if not ctx.thorough:
